@@ -147,6 +147,7 @@ func ruleInheritWalk(c *eng.Ctx) {
 	// constant inside a loop or recursion and (b) inside the same cycle gets the constant
 	// key "Parent".
 	isWalker := map[*ssa.Function]bool{}
+	reportedSources := map[*ssa.Function]bool{}
 	var check func(fn *ssa.Function, depth int) bool
 	check = func(fn *ssa.Function, depth int) bool {
 		if fn == nil || depth > 3 {
@@ -222,6 +223,37 @@ func ruleInheritWalk(c *eng.Ctx) {
 					}
 				}
 			}
+		}
+		// the walker answers only from the page's own dictionary or from a node on the /Parent chain: an
+		// answer taken from a table filled in while the tree was traversed is shared state between branches
+		for w, isW := range isWalker {
+			if !isW || reportedSources[w] {
+				continue
+			}
+			reportedSources[w] = true
+			var bad []string
+			for _, r := range eng.Returns(w) {
+				if len(r.Results) == 0 {
+					continue
+				}
+				for v := range eng.Slice(r.Results[0], nil) {
+					call, isCall := v.(*ssa.Call)
+					if !isCall || !strings.HasPrefix(eng.CalleeName(call), "core.Dict.Get") || len(call.Call.Args) < 2 {
+						continue
+					}
+					if s, isS := eng.ConstString(call.Call.Args[1]); isS && s == "Parent" {
+						continue
+					}
+					recv := call.Call.Args[0]
+					if fr, isF := eng.LoadOfField(recv); isF {
+						if fr.Field != "dict" && fr.Field != "parent" {
+							bad = append(bad, "field "+fr.Field+" at "+c.P.Pos(call.Pos()))
+						}
+					}
+				}
+			}
+			sort.Strings(bad)
+			c.Check(len(bad) == 0, R, eng.FuncName(w)+"#answer-sources", w.Pos(), "answers come from the page dictionary or a /Parent ancestor", "an inheritable attribute is answered from a precomputed table ("+strings.Join(bad, ", ")+") instead of the page's own ancestors: a table filled during traversal carries one branch's values into its siblings")
 		}
 		c.Check(ok, R, g, fn.Pos(), "attribute lookup follows /Parent on a cycle"+via, "the attribute is looked up on the page and at most a fixed number of ancestors (no loop or recursion following /Parent): pages nested deeper lose MediaBox/Resources/Rotate inherited from higher up")
 	}
